@@ -105,6 +105,26 @@ def toy_table():
     return out
 
 
+def cousin(base):
+    """A second curve over the same field that contains the same base point
+    with the same prime order (h = 1), with other coefficients: exposes state
+    shared between curves under a key that omits a or b.  The two cousins in
+    curves.json (of toy4093_gen_h1 and toy509_gen_h1) were found with this and
+    appended by hand; `curves.validate()` re-checks them like every curve."""
+    p, gx, gy, n = base["p"], base["gx"], base["gy"], base["n"]
+    for a in range(1, p):
+        if a in (base["a"], p - 3):
+            continue
+        b = (gy * gy - gx ** 3 - a * gx) % p
+        if b == 0 or (4 * a ** 3 + 27 * b * b) % p == 0:
+            continue
+        if count_points(p, a, b) == n:
+            return dict(name=base["name"].replace("_gen_", "_cousin_"), p=p,
+                        a=a, b=b, gx=gx, gy=gy, n=n, h=1,
+                        oid=[1, 3, 9999, p, a, b], toy=True)
+    return None
+
+
 def named_table():
     repo = os.environ.get("VERIF_REPO", "/repo")
     sys.path.insert(0, repo + "/src")
@@ -121,7 +141,12 @@ def named_table():
 
 
 def main():
-    tbl = dict(named=named_table(), toy=toy_table())
+    toys = toy_table()
+    for nm in ("toy4093_gen_h1", "toy509_gen_h1"):
+        c = cousin([t for t in toys if t["name"] == nm][0])
+        if c:
+            toys.append(c)
+    tbl = dict(named=named_table(), toy=toys)
     here = os.path.dirname(os.path.abspath(__file__))
     with open(os.path.join(here, "curves.json"), "w") as f:
         json.dump(tbl, f, indent=1, sort_keys=True)
